@@ -500,6 +500,17 @@ func Yield(site string) {
 	park(c, id, site, false)
 }
 
+// YieldThen is spliced around the callee of every sync/atomic operation: atomic.LoadUint64(&x) becomes
+// verifrt.YieldThen(atomic.LoadUint64, site)(&x). The callee expression is evaluated first, so the goroutine
+// offers a scheduling point just before the operation: a load, a compare and a store that are three separate
+// atomic operations can then be interleaved with another goroutine's.
+//
+//go:norace
+func YieldThen[F any](f F, site string) F {
+	Yield(site)
+	return f
+}
+
 // Locked / Unlocked bracket the critical sections of goalign's own mutexes:
 // a goroutine waiting for a sync.Mutex is not durably blocked, so a holder
 // must never park.
